@@ -310,7 +310,7 @@ func genSWCase(t *rapid.T, p *Profile) *Case {
 	c.Cfg.Prefill = 0
 	c.Cfg.NumVersionsToKeep = 1 << 30
 	c.Cfg.TableMult = rapid.SampledFrom([]int{1, 1, 2}).Draw(t, "sw_table_mult")
-	rounds := rapid.IntRange(1, 2).Draw(t, "sw_rounds")
+	rounds := rapid.IntRange(1, 3).Draw(t, "sw_rounds")
 	two := rapid.IntRange(0, 2).Draw(t, "sw_two_writers") == 0
 	// key universe: stream s owns the keys starting with byte 'a'+s
 	sfx := []string{"", "\x00", "\x00\x00", "0", "1", "2", "3", "4", "5", "6", "7", "8", "9", "\xff", "\xff\xff", "xxxxxxxxxxxxxxxxxxxxxxxxxxxxxxxxxxxxxxxx"}
@@ -332,7 +332,12 @@ func genSWCase(t *rapid.T, p *Profile) *Case {
 	var c0, c1 []Op
 	for round := 1; round <= rounds; round++ {
 		prep := Op{K: "sw_prepare"}
-		if round > 1 || rapid.IntRange(0, 3).Draw(t, "sw_incr_on_empty") == 0 {
+		if round > 1 {
+			// over existing data: incremental, or a full Prepare that drops and rebuilds
+			if rapid.Bool().Draw(t, "sw_incremental") {
+				prep.N = 1
+			}
+		} else if rapid.IntRange(0, 3).Draw(t, "sw_incr_on_empty") == 0 {
 			prep.N = 1
 		}
 		c0 = append(c0, prep)
